@@ -7,6 +7,7 @@ mod c15;
 mod c11;
 mod c10;
 mod pg;
+mod pgm;
 mod pgref;
 mod tabaut;
 mod aut;
@@ -109,6 +110,7 @@ fn main() {
             }
             "pg08" => pg::run("c08", tier, seed, &mut o),
             "pg11" => pg::run_c11(tier, seed, &mut o),
+            "pgm" => pgm::run(tier, seed, &mut o),
             "tab03" => tabaut::run("c03", tier, seed, &mut o),
             "tab06" => tabaut::run("c06", tier, seed, &mut o),
             "tab09" => tabaut::run("c09", tier, seed, &mut o),
